@@ -104,7 +104,7 @@ impl TableModel {
                 if self.g.family == "twochains" {
                     // evaluations after the panic are slow, so that "how many more" does not depend on how long the
                     // panicking worker takes to unwind
-                    std::thread::sleep(Duration::from_micros(200));
+                    std::thread::sleep(Duration::from_micros(500));
                 }
             }
         }
